@@ -142,8 +142,11 @@ class Task(ItemTask):
     @asyncio.coroutine
     def process(self, item):
         h, r = self.h, self.h.r
-        if item not in h.supplied:
-            r.violate(P, 'foreign-item', 'processed-item-not-from-source', 'task %d got %r' % (self.index, item))
+        if not isinstance(item, str) or item not in h.supplied:
+            # (describe a foreign object by its type: a repr with a memory address would make the trace differ per process)
+            what = item if isinstance(item, str) else '<%s object>' % type(item).__name__
+            r.violate(P, 'foreign-item', 'processed-item-not-from-source', 'task %d got %s' % (self.index, what))
+            item = what
         key = (item, self.index)
         if key in h.running:
             r.violate(P, 'concurrent-self', 'task-running-twice-for-item', '%r' % (key,))
